@@ -68,6 +68,9 @@ def join_case(draw):
             kind = kinds[dims.index(d)]
             if d == cdim:
                 rel, l = draw(gen.related_labels(bl, kind, relation=draw(st.sampled_from(["disjoint", "disjoint", "equal", "overlapping"]))))
+                if k > 0 and kind == "i" and l and draw(st.integers(0, 3)) == 0:
+                    frac = draw(st.sampled_from([0.0, 0.5, 0.1]))   # int labels first, float labels (between the integers) in a later input
+                    l = [x + frac if draw(st.booleans()) else float(x) for x in l]
                 labs.append(l if k > 0 else list(bl))
             elif k == 0 or aligned_inputs:
                 labs.append(list(bl))
